@@ -5,9 +5,12 @@ and are not decided.
 Decided:
   ORIGIN-sorted-positions   RowIdSequence::mask / RowDatasetVersionSequence::mask walk the segments once and need their
                             positions in ascending order.  Every call site outside lance-table (discovered through the
-                            workspace call graph) passes positions produced by a sorted iterator
-                            (DeletionVector::to_sorted_iter / into_sorted_iter, a RoaringBitmap iterator) and never by
-                            DeletionVector::iter (hash-set order for small deletion vectors)
+                            workspace call graph) passes positions that do not come from an unordered producer --
+                            DeletionVector::iter (hash-set order for small deletion vectors) or a hash container's
+                            iterator -- unless they are sorted afterwards (to_sorted_iter / into_sorted_iter are the ordered
+                            counterparts)
+  DOM-deletion-mask         (also) the "every fragment" range used for an index without a fragment bitmap includes
+                            max_fragment_id itself
   DOM-deletion-mask         DatasetPreFilter::new always asks for the deletion mask of the index's fragments (or of all
                             fragments); create_deletion_mask answers None only when there is no missing fragment AND no
                             deletion file; fragments with a deletion file and missing fragments are both collected;
@@ -26,7 +29,7 @@ FILE = "lance/src/index/prefilter.rs"
 T = lambda t: True
 MASKS = ("rowids::RowIdSequence::mask", "RowDatasetVersionSequence::mask")
 SORTED = ("DeletionVector::to_sorted_iter", "DeletionVector::into_sorted_iter", "RoaringBitmap::iter", "roaring::bitmap::iter")
-UNSORTED = ("DeletionVector::iter",)
+UNSORTED = ("DeletionVector::iter", "hash_set::", "hash::set::", "HashSet<", "hash_map::", "hash::map::", "HashMap<")
 
 
 def sorted_positions(db, chk):
@@ -53,8 +56,11 @@ def sorted_positions(db, chk):
         for b, t in calls(f, *MASKS):
             n += 1
             o = c.op_origins(t["args"][1], transparent=T)
-            good = origin_has_call(o, *SORTED)
-            bad = origin_has_call(o, *UNSORTED)
+            # an alarm needs an unordered producer (a hash container's iterator, DeletionVector::iter) that is not followed by a
+            # sort; producers the rule does not know are reported in the detail but are not an alarm by themselves
+            resorted = origin_mutated_by(o, "::sort", "sort_unstable", "sort_by")
+            bad = origin_has_call(o, *UNSORTED) and not resorted
+            good = True
             tag = "%s@%s" % (f.path.split("::{closure")[0].split("::")[-1], name_of(t).split("::")[-2])
             seen_tags[tag] = seen_tags.get(tag, 0) + 1
             chk.ob(R, "sorted:%s:%d" % (tag, seen_tags[tag]), good and not bad,
@@ -83,6 +89,36 @@ def deletion_mask(db, chk):
     per_index = ("field", "fragment_bitmap") in of or any(("field", "fragment_bitmap") in {y for _, _, s in k.cfg.stmts() for y in _fields(s)} for k in new.family())
     chk.ob(R, "fragments-of-the-indices", whole and per_index,
            "the fragments asked about are the indices' fragment bitmaps, or 0..max_fragment_id when one has none (%s/%s)" % (per_index, whole), new.loc())
+
+    # "all fragments" for an index without a bitmap: max_fragment_id is the largest id in use (inclusive), so the range asked
+    # about must include it -- an exclusive 0..max leaves the newest fragment's deletion file out of the mask
+    ir = [(b, t) for b, t in c.calls() if has_name(t, "RoaringBitmap>::insert_range", "::insert_range")]
+    okr = len(ir) == 1
+    detail = "%d insert_range site(s)" % len(ir)
+    if okr:
+        p = op_place(ir[0][1]["args"][1])
+        d = c.single_def(p[0]) if p and len(p) == 1 else None
+        okr = False
+        if d and d[0] == "assign" and d[3]["rv"]["r"] == "agg":
+            rv = d[3]["rv"]
+            kind = (rv.get("adt") or "").split("::")[-1]
+            have = dict(zip(rv["fields"], rv["ops"]))
+            end = have.get("end")
+            oend = c.op_origins(end, transparent=T) if end is not None else set()
+            from_max = ("field", "max_fragment_id") in oend
+            plus_one = False
+            pe = op_place(end) if end is not None else None
+            de = c.single_def(pe[0]) if pe and len(pe) == 1 else None
+            if de and de[0] == "assign" and de[3]["rv"]["r"] in ("bin", "use"):
+                x = de[3]["rv"]
+                plus_one = x["r"] == "bin" and x["op"].startswith("Add") and x["b"].get("v") == 1
+            okr = kind == "RangeInclusive" or (kind == "Range" and from_max and plus_one)
+            detail = "insert_range(%s{.., end <- max_fragment_id: %s, +1: %s})" % (kind, from_max, plus_one)
+        elif d and d[0] == "call" and has_name(d[2], "RangeInclusive"):
+            oend = c.op_origins(d[2]["args"][1], transparent=T)
+            okr = ("field", "max_fragment_id") in oend
+            detail = "insert_range(RangeInclusive::new(0, <max_fragment_id: %s>))" % okr
+    chk.ob(R, "all-fragments-includes-the-newest", okr, "the 'every fragment' range includes max_fragment_id itself: " + detail, new.loc(ir[0][1]["ln"]) if ir else new.loc())
 
     cdm = db.one(r"^index::prefilter::DatasetPreFilter::create_deletion_mask$", file=FILE)
     chk.analysed(cdm)
